@@ -62,6 +62,11 @@ CLAIMED = {
    "DESIGN.md §6 C02",
    "rustc is not in the loop for the generated code; the translator gencode.rs is trusted; differential as strong as the generator.",
    "translation of the emitted code to call trees: tree equality with the Lean generator model + execution against Vm::parse"),
+ "C16": ("proof",
+   "The Unicode tables and all name lists are REGENERATED from the source on every run (translators/tr_unicode.py -> lean/PestModel/Gen/UnicodeTables.lean), so the theorems are re-checked against what the code says now: gc_partition (every scalar value is in exactly one of the 29 two-letter general categories), surrogate_no_scalar, group_eq_union (8 groups), scripts_disjoint — each a single kernel computation on 1.1M-bit numbers (decide +kernel, no native_decide) lifted to all code points by proved generic lemmas — plus names_agree (every advertised name resolves through by_name to the constant its function reads), validator_accepts, backend_builtins_agree. The translator's trie expansion is validated on every run by an EXHAUSTIVE correspondence: every advertised function and by_name closure on all 1,112,064 scalar values, and the VM built-in on the boundary code points. When an obligation fails the check searches the implementation for the offending code point.",
+   "DESIGN.md §6 C16",
+   "Lean kernel (decide +kernel: GMP arithmetic); translator (regex + re-implemented ucd-trie lookup) validated exhaustively against TrieSet::contains_char; name lists extracted textually.",
+   "regenerated tables + Lean 4 kernel evaluation over the whole finite domain + exhaustive code-point correspondence"),
 }
 REASON_TODO = "not claimed yet: machinery for this property is not built in the committed tree (planned in DESIGN.md §6); no check is registered rather than an unsound one"
 
